@@ -248,3 +248,66 @@ def run_cover(check, rule, visitor, targets, exclusions, min_overrides, block_ov
                     check.ok("TRAV-ROOT", key, hir.loc(e["node"]), "children-visit of %s: no override for %s" % (tr.ap_str(e["ap"]), rt.split("::")[-1]))
     check.note("%s: %d overrides of %s, %d structural paths" % (rule, len(ovs), visitor, npaths))
     return ovs
+
+
+def rule_default_visitor(check, trait, targets, rule="DEFAULT-VISITOR"):
+    """The assumption behind TRAV ('a node type without an override is traversed completely') is
+    checked against the MIR of the compiled swc_ecma_visit: for every AST type reachable from Program
+    that can contain a target, the generated visit_[mut_]children_with hands every such field (every
+    variant payload) to visit_[mut_]with, and the trait's default method calls exactly that."""
+    from .trav import AdtGraph, ignored_adt
+
+    prog = check.prog
+    check.rule(rule, "for every swc_ecma_ast type reachable from Program that can contain a target node, the compiled swc_ecma_visit default traversal (%s / %sWith, read from its MIR) visits every field / variant payload that can contain one" % (trait, trait))
+    dv = prog.facts.get("default_visitors") or []
+    impls = {d["self_ty"]: d for d in dv if d.get("trait") == trait + "With" and "calls" in d}
+    defaults = {}
+    for d in dv:
+        if d.get("trait") == trait and "method" in d:
+            nt = d["node_ty"]
+            nt = nt[5:] if nt.startswith("&mut ") else (nt[1:] if nt.startswith("&") else nt)
+            defaults[nt] = d
+    graph = AdtGraph(prog.adts)
+    root = "swc_ecma_ast::Program"
+    seen = set()
+    stack = [root]
+    while stack:
+        a = stack.pop()
+        if a in seen or a not in prog.adts or (a != root and ignored_adt(a)) or not a.startswith("swc_ecma_ast::"):
+            continue
+        seen.add(a)
+        for v in prog.adts[a]["variants"]:
+            for f in v["fields"]:
+                stack.extend(f["adts"])
+    n_types = 0
+    n_fields = 0
+    for a in sorted(seen):
+        if not (a in targets or graph.reaches(a, targets)):
+            continue
+        rec = prog.adts[a]
+        imp = impls.get(a)
+        key = "%s/%s/%s" % (rule, trait, a.split("::")[-1])
+        if imp is None:
+            check.bad(rule, key + "/impl", "-", "no %sWith implementation (with MIR) found for %s: its children are not traversed by default" % (trait, a))
+            continue
+        n_types += 1
+        places = [c["place"] for c in imp["calls"]]
+        missing = []
+        for v in rec["variants"]:
+            for j, f in enumerate(v["fields"]):
+                if not graph.field_reaches(f, targets):
+                    continue
+                n_fields += 1
+                want = "((*_1).%d:" % j if rec["kind"] == "struct" else "(((*_1) as %s).%d:" % (v["name"], j)
+                if not any(p.startswith(want) for p in places):
+                    missing.append(("%s.%s" % (v["name"], f["name"])) if rec["kind"] != "struct" else f["name"])
+        if missing:
+            check.bad(rule, key, "-", "the default traversal of %s does not visit %s" % (a, ", ".join(missing)))
+        d = defaults.get(a)
+        ok_default = d is not None and [(c["name"], c["recv_ty"]) for c in d["callees"]] == [("visit_mut_children_with" if trait == "VisitMut" else "visit_children_with", a)]
+        if not ok_default:
+            check.bad(rule, key + "/default-method", "-", "the default %s method for %s does not simply call its children traversal (%s)" % (trait, a, d["callees"] if d else "no such method"))
+        if not missing and ok_default:
+            check.ok(rule, key, "-", "every target-bearing field of %s is visited by default" % a.split("::")[-1])
+    check.floor(rule, "AST types validated (%s)" % trait, n_types, 60)
+    check.note("%s: %d types, %d target-bearing fields validated against the MIR of swc_ecma_visit (%s)" % (rule, n_types, n_fields, trait))
